@@ -140,6 +140,8 @@ def build_node(
         def class_method(*args: t.Any, **kwargs: t.Any) -> t.Any:
             return process_method(*args, **kwargs, **(dependencies_default or {}))
 
+    class_method.__name__ = 'process'
+
     class_name = class_name or f'Generic{node.__name__}'
     created_node = type(
         class_name,
